@@ -67,6 +67,12 @@ def run_case(cl, kind, a, s, af, mf, caf, cmf, data, dfi, reply=None):
         ml = MemoryLocation(a, s, af, mf)
     except Exception:  # noqa
         return 'reject', [], None, 'ctor'
+    # how the object reaches the call: as built, or as a copy / deep copy / unpickled copy of what was built (an application that keeps its memory map in a
+    # template, a work queue, a file).  A copy stands for the same address, size and requested widths as its original.
+    import copy
+    import pickle
+    way = (a + s + (af or 0) + (mf or 0) + (caf or 0) * 3 + (cmf or 0)) % 4
+    ml = (lambda x: x, copy.copy, copy.deepcopy, lambda x: pickle.loads(pickle.dumps(x)))[way](ml)
     if reply is not None:
         conn.script = [(1, reply)]
 
